@@ -7,6 +7,11 @@ ALL = ["C%02d" % i for i in range(1, 20)]
 
 # id -> (category, technique, level text, level note, design ref)
 CHECKS = {
+    "C15": ("exploration",
+            "bounded exhaustive enumeration of texts/ranges, parse-tree node ranges and planted faults in systematically varied layouts",
+            "(a) error::listing is called on every text up to 5/6 fragments (ASCII, 2- and 4-byte letters, space, tab, LF, CRLF) with every diagnostic-shaped range and compared with a specification of the listing (lines shown, 1-based numbers, marked character columns). (b) Every node of the parse result of every sentence up to the bounds must carry a range inside the file whose text re-parses to that node. (c) Every sentence up to the bounds is laid out in 9 ways (fault on line 1/2/9/10, after non-ASCII text on the same line, broken over several lines, CRLF) with planted faults - every use unbound, every binder re-bound (all binder forms), a stray symbol in every gap - and the reported listing must mark exactly the planted identifier or symbol. Type faults are planted by the typed-program sweeps with the same oracle.",
+            "Trusted: the listing specification and reader in engine/src/model/listing.rs. Reading adopted: a diagnostic for a parenthesised operand may cover the operand with or without the parentheses enclosing only it. One genuine defect is recorded as a known finding (F-RANGE-CHAIN) with a defect-model classifier.",
+            "DESIGN.md 6/C15"),
     "C08": ("exploration",
             "bounded exhaustive enumeration of name-instantiated derivation trees against a named scope resolver",
             "Every derivation tree of grammar.y up to 7/8 tokens (class alphabet) and 11/13 tokens (let and binder slices), with every assignment of a 3-name pool (including `_`, a keyword prefix and a non-ASCII name) to every identifier leaf, is parsed by the real parser and compared with a named scope resolver: predicted faults must be reported with the right kind and identifier, fault-free programs must carry exactly the predicted de Bruijn index at every occurrence. Exhaustive within the bounds.",
